@@ -1,6 +1,6 @@
 /* logfmt.c - drives the real log writer / reader through their in-memory seams (lw->dst, lr->src).
  *   logfmt write <vectors> <out.bin>      vectors: lines "off len1 len2 ..."; out: "V idx off nbytes\n<bytes>\n"
- *   logfmt read <in.bin> <tests> <out>    tests: "idx cut <c>" | "idx flip <pos> <xor>"; out: one JSON line per test
+ *   logfmt read <in.bin> <tests> <out>    tests: "idx cut <c>" | "idx flip <pos> <xor>" | "idx zero <pos> <len>"; out: one JSON line per test
  * Record j (1-based) of length n carries byte (j*37 + p*11 + n) & 255 at position p, so a returned record identifies
  * itself; anything else is reported as fabricated (-1).
  */
@@ -82,6 +82,7 @@ static int cmd_read(const char *inp, const char *tests, const char *outp) {
     n = V[idx].n; copy = malloc(n + 1); memcpy(copy, V[idx].data, n);
     if (!strcmp(op, "cut")) { if ((size_t)a < n) n = (size_t)a; }
     else if (!strcmp(op, "flip")) { if ((size_t)a < n) copy[a] ^= (unsigned char)b; }
+    else if (!strcmp(op, "zero")) { if ((size_t)a < n) memset(copy + a, 0, (size_t)a + (size_t)b <= n ? (size_t)b : n - (size_t)a); }   /* a zero-filled region (e.g. a lost block) */
     g_drops = 0; g_dropbytes = 0;
     memset(&rep, 0, sizeof(rep)); rep.corruption = on_corruption;
     ldb_slice_set(&src, copy, n);
